@@ -790,7 +790,11 @@ func (s *Searcher) fetchRRCs() (*iqr.IQR, error) {
 	getBatchKey := func(block *block) string {
 		return block.parentQSR.GetSegKey()
 	}
-	batchKeyLess := utils.None[func(string, string) bool]()
+	// Process the segments in a fixed order; the merge below prefers the earlier slice when
+	// timestamps are equal, so the order must not depend on map iteration.
+	batchKeyLess := utils.Some(func(a, b string) bool {
+		return a < b
+	})
 	// The return value is not needed, so use struct{} as a placeholder.
 	batchOperation := func(blocks []*block) ([]*struct{}, error) {
 		if len(blocks) == 0 {
@@ -1014,16 +1018,24 @@ func (s *Searcher) initializeQSRs() error {
 
 	s.qsrs = qsrs
 
+	// Ties are broken by the segment key, so that the order (and with it the order of
+	// records with equal timestamps) is the same every time the query runs.
 	switch s.sortMode {
 	case anyOrder:
 		return nil
 	case recentFirst:
 		sort.Slice(qsrs, func(i, j int) bool {
-			return qsrs[i].GetEndEpochMs() > qsrs[j].GetEndEpochMs()
+			if qsrs[i].GetEndEpochMs() != qsrs[j].GetEndEpochMs() {
+				return qsrs[i].GetEndEpochMs() > qsrs[j].GetEndEpochMs()
+			}
+			return qsrs[i].GetSegKey() < qsrs[j].GetSegKey()
 		})
 	case recentLast:
 		sort.Slice(qsrs, func(i, j int) bool {
-			return qsrs[i].GetStartEpochMs() < qsrs[j].GetStartEpochMs()
+			if qsrs[i].GetStartEpochMs() != qsrs[j].GetStartEpochMs() {
+				return qsrs[i].GetStartEpochMs() < qsrs[j].GetStartEpochMs()
+			}
+			return qsrs[i].GetSegKey() < qsrs[j].GetSegKey()
 		})
 	default:
 		return fmt.Errorf("initializeQSRs: invalid sort mode: %v", s.sortMode)
@@ -1406,15 +1418,30 @@ func (s *Searcher) readSortedRRCs(blocks []*block, segkey string) ([]*sutils.Rec
 	return rrcs, searchResults.SegEncToKey, nil
 }
 
+// All of the RRCs must be for the same segment. Records with equal timestamps are ordered by
+// their position in the segment, so the result does not depend on the order of the input.
 func sortRRCs(rrcs []*sutils.RecordResultContainer, mode sortMode) error {
+	positionLess := func(a, b *sutils.RecordResultContainer) bool {
+		if a.BlockNum != b.BlockNum {
+			return a.BlockNum < b.BlockNum
+		}
+		return a.RecordNum < b.RecordNum
+	}
+
 	switch mode {
 	case recentFirst:
 		sort.Slice(rrcs, func(i, j int) bool {
-			return rrcs[i].TimeStamp > rrcs[j].TimeStamp
+			if rrcs[i].TimeStamp != rrcs[j].TimeStamp {
+				return rrcs[i].TimeStamp > rrcs[j].TimeStamp
+			}
+			return positionLess(rrcs[i], rrcs[j])
 		})
 	case recentLast:
 		sort.Slice(rrcs, func(i, j int) bool {
-			return rrcs[i].TimeStamp < rrcs[j].TimeStamp
+			if rrcs[i].TimeStamp != rrcs[j].TimeStamp {
+				return rrcs[i].TimeStamp < rrcs[j].TimeStamp
+			}
+			return positionLess(rrcs[i], rrcs[j])
 		})
 	case anyOrder:
 		// Do nothing.
